@@ -27,8 +27,9 @@ ASSUMPTIONS = [
     "criterion slices shared between stack states are modelled as immutable lists: assumes Go append never overwrites a "
     "slot visible to a live state; exercised by backtracking-heavy universes in the correspondence",
     "LRU caches omitted from the model (a hit returns what the uncached call returns); validated by the correspondence",
-    "filterSlice modelled as the pure function with Go's resulting order; the write to the client's own slices (F-C05-1) "
-    "is kept away from the resolver by a copying client in the correspondence run and measured separately on the raw client",
+    "filterSlice modelled as the pure function with Go's resulting order of kept elements (since the repair of F-C05-1 the "
+    "Go code filters a clone, so nothing is written to the client's slices); runs on the raw LocalClient and on the recording "
+    "client are compared on every case",
     "theorems assume a client that answers about the package it was asked about (client_wf); checked on every recorded table",
     "sort.Slice in matchingVersionsWithPrereleases modelled as Go's insertion sort (lists of at most 12 versions)",
 ]
@@ -174,21 +175,26 @@ def gen_universe(rng):
             for tgt in targets:
                 reqs.append([tgt, gen_spec(rng, vers[tgt]), gen_type(rng, False)])
             uni[n][v] = reqs
-    # conflict template: the preferred (highest) versions of p demand a high r, every q demands a low r
-    if rng.random() < 0.45 and npk >= 4:
-        for _ in range(rng.randrange(1, 3)):
+    # conflict template: the preferred (highest) version of p demands the highest r, every q demands a
+    # lower r, lower versions of p are lenient: whatever is pinned first, the resolver has to backtrack
+    if rng.random() < 0.6 and npk >= 4:
+        for _ in range(rng.randrange(1, 4)):
             top, p, q, r = rng.sample(names, 4)
-            if len(vers[r]) < 2:
+            rf = sorted([v for v in vers[r] if vkey(v)[1] >= 3], key=vkey)
+            if len(rf) < 2 or len(vers[p]) < 2:
                 continue
-            hi = rng.choice(vers[r])
+            hi = rf[-1]
             for v in vers[top]:
                 set_req(uni[top][v], p, b"", [])
                 set_req(uni[top][v], q, b"", [])
-            for i, v in enumerate(vers[p]):
-                if rng.random() < 0.7:
-                    set_req(uni[p][v], r, b">=" + hi, [])
+            ps = sorted(vers[p], key=vkey)
+            for i, v in enumerate(ps):
+                if i == len(ps) - 1 or rng.random() < 0.3:
+                    set_req(uni[p][v], r, rng.choice([b">=", b"=="]) + hi, [])
+                elif rng.random() < 0.5:
+                    set_req(uni[p][v], r, b"", [])
             for v in vers[q]:
-                set_req(uni[q][v], r, b"<" + hi, [])
+                set_req(uni[q][v], r, rng.choice([b"<", b"!="]) + hi, [])
     # the two known defect shapes, so that every run measures them (F-C08-1, F-C08-2)
     if rng.random() < 0.04 and npk >= 5:
         top, q, x, p = rng.sample(names, 4)
@@ -368,84 +374,101 @@ def classify(hit, orc):
     return "F-C08-1"
 
 
-def run_batch(ctx, items, label):
-    """items: list of (names, vers, uni, root). Runs record, correspondence, direct oracle."""
-    rec_args = [sx([[r[0], CONCRETE, r[1]], universe_sx(names, vers, uni)]) for names, vers, uni, r in items]
-    rec_out = ctx.impl("pypi_record", rec_args)
-    cases, parsed = [], []
-    for line in rec_out:
-        o = parse_sx(line)
-        parsed.append(o)
-    for (names, vers, uni, r), o in zip(items, parsed):
-        cases.append(sx([[r[0], CONCRETE, r[1]], o[2], o[3]]))
-    impl, model = ctx.correspond("pypi", cases, label=label, compare=same_obs)
-    for (names, vers, uni, r), o, case, il, ml in zip(items, parsed, cases, impl, model):
-        rec, raws, table, oracles, direct, inconsistent = o
-        if inconsistent:
-            ctx.violation("recording client saw two different answers for one call although it hands out copies",
-                          case, observed="inconsistent")
-        # client_wf on the recorded table (hypothesis of the theorems)
-        for key, ans in table[0]:
-            if ans[0] == 1 and any(v[0] != key for v in ans[1]):
-                ctx.violation("Versions answered with a version of another package", case)
-        for key, ans in table[2]:
-            if ans[0] == 1 and any(v[0] != key[0] for v in ans[1]):
-                ctx.violation("MatchingVersions answered with a version of another package", case)
-        crec = canon_obs(rec)
-        # Go on the table client must reproduce Go on the recording client
-        if canon_obs(parse_sx(il)) != crec:
-            ctx.divergence("pypi(table-vs-recorded)", case, il, sx(rec))
-        # implementation nondeterminism (map iteration) and the effect of F-C05-1 on the raw client
-        craws = [canon_obs(x) for x in raws]
-        if any(x != craws[0] for x in craws[1:]):
-            ctx.violation("canonical graph differs between runs on the same universe (map iteration order)",
-                          rec_args_of(names, vers, uni, r), observed=sx(raws))
-        if craws[0] != crec:
-            ctx.count("raw_client_differs_from_copying_client(F-C05-1)")
-        kind = rec[0].decode()
-        ctx.count("outcome:" + (kind if kind != "gerr" else "gerr:" + rec[1].decode()))
-        if kind != "ok":
-            continue
-        orc = Oracle(uni, r, oracles, direct)
-        mobs = parse_sx(ml)
-        model_hits = set(repr(h) for h in orc.check(mobs)) if mobs and mobs[0] == b"ok" else set()
-        seen_objs = [("copying", rec)]
-        if craws[0] != crec and raws[0][0] == b"ok":
-            seen_objs.append(("raw", raws[0]))
-        for which, g in seen_objs:
-            for h in orc.check(g):
-                kf = classify(h, orc)
-                if kf is not None and (repr(h) in model_hits or which == "raw"):
-                    ctx.known_hits[kf] = ctx.known_hits.get(kf, 0) + 1
-                    continue
-                ctx.violation("C08 clause %s fails on the graph returned by the resolver (%s client)" % (h[0], which),
-                              rec_args_of(names, vers, uni, r), observed=sx(g), required=repr(h[1]))
-        st = orc.stale_edges(rec)
-        if st:
-            ctx.count("graphs_with_edges_labelled_by_a_replaced_version's_requirement")
-        nn = len(rec[1])
-        ctx.count("nodes", nn)
-        ctx.count("graphs")
-        asked = set((k[0], k[2]) for k, _ in table[1])
-        innodes = set((n[0], n[2]) for n in rec[1])
-        rejected = len(asked - innodes)
-        if rejected:
-            ctx.count("graphs_with_rejected_or_backtracked_candidates")
-        dropped = 0
-        for nv in innodes:
-            for tgt, rq, ty in uni.get(nv[0], {}).get(nv[1], []):
-                if dict((k, v) for k, v in ty).get(K_ENV) is not None:
-                    val = orc.marker_val(ty, [])
-                    if val is False:
-                        dropped += 1
-        if nn >= 3 and (rejected or dropped):
-            ctx.nontriv((sx(universe_sx(names, vers, uni)), r))
-        if len(ctx.samples) < 3 and nn >= 4 and rejected:
-            ctx.sample({"kind": "pypi_record", "root": [x.decode() for x in r], "graph": sx(rec)[:600]})
+def record_arg(names, vers, uni, roots):
+    return sx([universe_sx(names, vers, uni), [[r[0], CONCRETE, r[1]] for r in roots]])
 
 
 def rec_args_of(names, vers, uni, r):
-    return {"kind": "pypi_record", "arg": sx([[r[0], CONCRETE, r[1]], universe_sx(names, vers, uni)])}
+    return {"kind": "pypi_record", "arg": record_arg(names, vers, uni, [r])}
+
+
+class LazyInput:
+    """the replayable input of one (universe, root), rendered only when a violation is recorded"""
+    def __init__(self, *a):
+        self.a = a
+
+    def get(self):
+        return rec_args_of(*self.a)
+
+
+def same_obs_list(x, y):
+    """one result per root; the Go side is already canonical"""
+    try:
+        a, b = parse_sx(x), parse_sx(y)
+        return len(a) == len(b) and all(canon_obs(p) == canon_obs(q) for p, q in zip(a, b))
+    except Exception:
+        return x == y
+
+
+def run_batch(ctx, unis, label):
+    """unis: list of (names, vers, uni, roots). One case per universe: record on Go, correspondence on the
+    recorded tables, direct oracle on the graphs."""
+    rec_out = ctx.impl("pypi_record", [record_arg(*u) for u in unis])
+    parsed = [parse_sx(line) for line in rec_out]
+    cases = [o[3].decode("latin-1") for o in parsed]    # the model case as rendered by the Go side
+    impl, model = ctx.correspond("pypi", cases, label=label, compare=same_obs_list)
+    nbs = ctx.model("pypi_stats", cases)        # instrumentation of the model: successful backtracks per run
+    ctx.evaluations += sum(len(u[3]) for u in unis) - len(unis)
+    def violation(what, inp, **kw):
+        ctx.violation(what, inp.get(), **kw)
+    for (names, vers, uni, roots), o, case, il, ml, nbl in zip(unis, parsed, cases, impl, model, nbs):
+        markers, direct, per, _ = o
+        impl_obs, model_obs, nb_list = parse_sx(il), parse_sx(ml), parse_sx(nbl)
+        orc_tables = [markers, []]
+        for r, (rec, raw_differs, raw_obs, nondet, inconsistent, wf, rejected), iobs, mobs, nb in zip(
+                roots, per, impl_obs, model_obs, nb_list):
+            ctx.count("corr:roots")
+            inp = LazyInput(names, vers, uni, r)
+            if inconsistent:
+                violation("the client gave two different answers to the same call within one resolution",
+                              inp, observed="inconsistent")
+            if not wf:
+                violation("client_wf fails on the recorded table (an answer about another package, or a "
+                              "requirement key that is not of type Requirement)", inp)
+            # Go on the table client must reproduce Go on the recording client
+            if iobs != rec:
+                ctx.divergence("pypi(table-vs-recorded)", inp.get()["arg"], sx(iobs), sx(rec))
+            if nondet:
+                violation("canonical graph differs between runs on the same universe (map iteration order)",
+                              inp, observed=sx(raw_obs))
+            if raw_differs:
+                ctx.count("raw_client_differs_from_recording_client")
+            ctx.count("backtracks:" + ("none" if nb <= 0 else "1" if nb == 1 else "2-4" if nb <= 4 else "5+"))
+            kind = rec[0].decode()
+            ctx.count("outcome:" + (kind if kind != "gerr" else "gerr:" + rec[1].decode()))
+            if kind != "ok":
+                continue
+            orc = Oracle(uni, r, orc_tables, direct)
+            model_hits = set(repr(h) for h in orc.check(mobs)) if mobs and mobs[0] == b"ok" else set()
+            seen_objs = [("recording", rec)]
+            if raw_differs and raw_obs and raw_obs[0][0] == b"ok":
+                seen_objs.append(("raw", raw_obs[0]))
+            for which, g in seen_objs:
+                for h in orc.check(g):
+                    kf = classify(h, orc)
+                    if kf is not None and (repr(h) in model_hits or which == "raw"):
+                        ctx.known_hits[kf] = ctx.known_hits.get(kf, 0) + 1
+                        continue
+                    violation("C08 clause %s fails on the graph returned by the resolver (%s client)" % (h[0], which),
+                                  inp, observed=sx(g), required=repr(h[1]))
+            if orc.stale_edges(rec):
+                ctx.count("graphs_with_edges_labelled_by_a_replaced_version's_requirement")
+            nn = len(rec[1])
+            ctx.count("nodes", nn)
+            ctx.count("graphs")
+            if rejected:
+                ctx.count("graphs_with_rejected_or_backtracked_candidates")
+            if nb > 0:
+                ctx.count("graphs_after_backtracking")
+            dropped = 0
+            for n in rec[1]:
+                for tgt, rq, ty in uni.get(n[0], {}).get(n[2], []):
+                    if dict((k, v) for k, v in ty).get(K_ENV) is not None and orc.marker_val(ty, []) is False:
+                        dropped += 1
+            if nn >= 3 and (rejected or dropped or nb > 0):
+                ctx.nontriv((names, repr(uni), r))
+            if len(ctx.samples) < 3 and nn >= 4 and nb > 0:
+                ctx.sample({"kind": "pypi_record", "root": [x.decode() for x in r], "backtracks": nb, "graph": sx(rec)[:600]})
 
 
 def known_witnesses(ctx):
@@ -456,7 +479,7 @@ def known_witnesses(ctx):
         w = k["witness"]
         out = ctx.impl(w["kind"], [w["arg"]])[0]
         o = parse_sx(out)
-        got = sx(canon_obs(o[0]))
+        got = sx(canon_obs(o[2][0][0]))
         if got != w["failing_output"]:
             ctx.notes.append("known finding %s no longer reproduces as recorded (got %s)" % (k["id"], got[:300]))
             ctx.count("known_witness_changed:" + k["id"])
@@ -469,17 +492,13 @@ def run(ctx):
     if ctx.replay:
         replay(ctx)
     known_witnesses(ctx)
-    n_uni = ctx.scale(300, 20000)
+    n_uni = ctx.scale(400, 20000)
     batch = []
-    done = 0
     for u in range(n_uni):
         names, vers, uni = gen_universe(rng)
-        for n in names:
-            for v in vers[n]:
-                batch.append((names, vers, uni, (n, v)))
-        if len(batch) >= 4000 or u == n_uni - 1:
+        batch.append((names, vers, uni, [(n, v) for n in names for v in vers[n]]))
+        if len(batch) >= 400 or u == n_uni - 1:
             run_batch(ctx, batch, "pypi")
-            done += len(batch)
             batch = []
     ctx.count("universes", n_uni)
     g = ctx.dist.get("graphs", 0)
@@ -493,7 +512,8 @@ def replay(ctx):
         inp = v.get("input")
         if isinstance(inp, dict) and inp.get("kind") == "pypi_record":
             out = ctx.impl("pypi_record", [inp["arg"]])[0]
-            print("REPLAY %s\n  -> %s" % (inp["arg"][:2000], out[:2000]))
+            o = parse_sx(out)
+            print("REPLAY %s\n  -> %s" % (inp["arg"][:2000], sx(o[2][0][0])[:2000]))
 
 
 def oracle_only(ctx):
@@ -501,13 +521,14 @@ def oracle_only(ctx):
     rng = ctx.rng
     for u in range(ctx.scale(150, 2000)):
         names, vers, uni = gen_universe(rng)
-        items = [(names, vers, uni, (n, v)) for n in names for v in vers[n]]
-        args = [sx([[r[0], CONCRETE, r[1]], universe_sx(names, vers, uni)]) for _, _, _, r in items]
-        for (names, vers, uni, r), line in zip(items, ctx.impl("pypi_record", args)):
-            rec, raws, table, oracles, direct, inconsistent = parse_sx(line)
+        roots = [(n, v) for n in names for v in vers[n]]
+        o = parse_sx(ctx.impl("pypi_record", [record_arg(names, vers, uni, roots)])[0])
+        markers, direct, per, _ = o
+        for r, p in zip(roots, per):
+            rec = p[0]
             if rec[0] != b"ok":
                 continue
-            orc = Oracle(uni, r, oracles, direct)
+            orc = Oracle(uni, r, [markers, []], direct)
             for h in orc.check(rec):
                 if classify(h, orc) is None:
                     ctx.violation("C08 clause %s fails on the graph returned by the resolver" % h[0],
